@@ -200,6 +200,8 @@ class Gen:
     def _rec_ref(self, scope):
         r = self.rng
         ref = Ref(r.choice(scope))
+        if r.random() < 0.25:
+            ref = Ann(ref, dict(r.choice(OBJ_CONS)))  # constraints attached to the recursive reference itself
         k = r.random()
         if k < 0.4:
             return opt(ref)
@@ -343,6 +345,8 @@ class Gen:
                 f.initvar = True  # (forward references inside InitVar[...] are never resolved by typing)
             elif k < 0.12 and self.on("undefined", 1):
                 f.undefined = True
+                if kind == "dataclass" and r.random() < 0.35:
+                    f.undef_nodefault = True  # required key; the value Undefined can only be given by construction
             elif k < 0.18 and self.on("none_as_undefined", 1) and _non_none_alts(f.t) and not (isinstance(f.t, Ann) and isinstance(strip(f.t), Union_)):
                 # (an Annotated union wrapped again in Optional is not flattened by typing: which None none_as_undefined removes is unclear)
                 if not isinstance(f.t, Union_):
